@@ -61,3 +61,16 @@ LW8_INHERITED_OK = {
     "visit_expr_range": "ranges occur only below visit_expr_in, which XExprEvaluator overrides and never descends into",
     "visit_expr_rangelist": "range lists occur only below visit_expr_in, which XExprEvaluator overrides and never descends into",
 }
+
+# NM2: statement-model attributes that are per-call working state by design (key = "Class.method:self.attr")
+NM2_STATEFUL = {
+    "ConstraintDistScopeModel.next_target_range:self.target_range":
+        "the bucket chosen for this call; rewritten by every call before it is read (DistConstraintBuilder calls next_target_range per call)",
+    "ConstraintDistScopeModel.set_dist_soft_c:self.dist_soft_c":
+        "the scope object itself is created per call by DistConstraintBuilder, so this is per-call state",
+    "ConstraintBlockModel.set_constraint_enabled:self.enabled":
+        "the user-visible constraint_mode flag (C07), not derived state",
+}
+
+# OPT1: options that by design do not cascade from the covergroup
+OPT1_NO_CASCADE = {"comment": "documented in the source: 'Comment doesn't cascade'"}
